@@ -9,7 +9,7 @@ import math
 import random
 from fractions import Fraction
 
-from .common import MachineryError, Units, import_pams
+from .common import BADPX, NOPX, MachineryError, Units, import_pams
 
 import_pams()
 from pams.logs.base import CancelLog, ExecutionLog, ExpirationLog, Logger, OrderLog  # noqa: E402
@@ -87,11 +87,11 @@ def c19_side_condition(req, tick, accepted, is_buy):
 
 def snap_market(m, U):
     """Projection of the observable state of a Market (public getters, priority_queue, best orders).
-    Values that are not on the unit grid (only possible if an off-grid price was accepted) are logged as -1: the
+    Values that are not on the unit grid (only possible if an off-grid price was accepted) are logged as BADPX (-2; None is NOPX = -1): the
     trace specification then reports the mismatch instead of the harness failing."""
     def u(x):
         k = U.u(x, soft=True)
-        return -1 if k is None else k
+        return BADPX if k is None else k
     book = sorted([[o.order_id, o.volume] for o in m.buy_order_book.priority_queue + m.sell_order_book.priority_queue])
     bb, bs = m.buy_order_book.get_best_order(), m.sell_order_book.get_best_order()
     # the order in which a matching round would pop the queues (heappop on COPIES; the book is not touched)
@@ -124,9 +124,28 @@ def history_rows(m, intern):
     cols = [getattr(m, g)(range(t)) for g in SERIES_FOR_HISTORY]
     out = []
     for i in range(t):
-        row = tuple(repr(c[i]) for c in cols)
+        row = tuple(repr(c[i]) for c in cols) + index_columns(m, i)
         out.append(intern.setdefault(row, len(intern) + 1))
     return out
+
+
+INDEX_ACCESSORS = ["get_market_index", "get_index", "get_fundamental_index"]
+
+
+def index_columns(m, i):
+    """an index market also answers for past times through its index accessors (computed from its components)"""
+    if not all(hasattr(m, g) for g in INDEX_ACCESSORS):
+        return ()
+    return tuple(repr(getattr(m, g)(i)) for g in INDEX_ACCESSORS)
+
+
+def current_row(m, intern):
+    """Interned row of the eight series at the CURRENT time (read just before the clock moves; 0 before the first step)."""
+    t = m.get_time()
+    if t < 0:
+        return 0
+    row = tuple(repr(getattr(m, g)([t])[0]) for g in SERIES_FOR_HISTORY) + index_columns(m, t)
+    return intern.setdefault(row, len(intern) + 1)
 
 
 class Broken(Exception):
@@ -153,6 +172,7 @@ class BookSession:
         self.accepted = {}      # order_id -> Order
         self._intern = {}
         self.vwap_bad = 0
+        self.nohist = False     # after Market._set_time skipped steps the series getters refuse the skipped times
 
     # ------------------------------------------------------------------ observation
     def header(self):
@@ -165,7 +185,7 @@ class BookSession:
     def _emit(self, e):
         cnt, exp = self.logger.take()
         e["lg"] = cnt
-        if e["k"] == "tick":
+        if e["k"] in ("tick", "jump"):
             e["exp"] = exp
         try:
             e.update(self._snap())
@@ -186,6 +206,8 @@ class BookSession:
         (decimal ticks).  neg: "" | "resubmit" | "foreign"."""
         self.ops.append(["sub", bool(buy), bool(mo), int(req), int(vol), int(ttl), neg, req_float])
         price = None if mo else (req_float if req_float is not None else self.U.f(req))
+        if price is not None and float(price).is_integer() and len(self.objs) % 3 == 0:
+            price = int(price)          # an integral price handed over as a Python int is the same price
         if neg == "resubmit":
             cands = [i for i, x in enumerate(self.objs) if x.placed_at is not None]
             if not cands:
@@ -201,14 +223,14 @@ class BookSession:
             obj = len(self.objs) - 1
         e = {"k": "sub", "obj": obj, "ag": 0, "buy": bool(o.is_buy), "mo": o.kind == MARKET_ORDER,
              "req": 0 if mo else int(req), "vol": int(o.volume), "ttl": int(o.ttl or 0), "neg": neg,
-             "out": "ok", "id": -1, "px": 0, "t0": -1, "c19": ""}
+             "out": "ok", "id": -1, "px": NOPX, "t0": -1, "c19": ""}
         try:
             log = self.m._add_order(o)
             e["id"], e["t0"] = int(log.order_id), int(log.time)
             if not e["mo"]:
                 k = self.U.u(log.price, soft=True)
                 if k is None:
-                    e["px"], e["c19"] = 0, "off-grid"
+                    e["px"], e["c19"] = BADPX, "off-grid"
                 else:
                     e["px"] = k
                 if not self.exact:
@@ -237,19 +259,37 @@ class BookSession:
         fund = self.fund0 if fund is None else fund
         self.ops.append(["tick", int(fund)])
         try:
+            pre = 0 if self.nohist else current_row(self.m, self._intern)
+        except MachineryError:
+            raise
+        except Exception:  # noqa: BLE001 - a getter raised: the snapshot after the step reports it
+            pre = 0
+        try:
             self.m._update_time(next_fundamental_price=self.U.f(fund))
         except Exception as ex:  # noqa: BLE001
             self._crash("tick", ex)
-        e = {"k": "tick", "fund": int(fund)}
+        e = {"k": "tick", "fund": int(fund), "pre": pre, "nh": bool(self.nohist)}
         e = self._emit(e)
         try:
-            e["hist"] = self._history()
+            e["hist"] = [] if self.nohist else self._history()
         except MachineryError:
             raise
         except Exception as ex:  # noqa: BLE001
             self.ev.pop()
             self._crash("history-getters", ex)
         return e
+
+    def jump(self, k, fund=None):
+        """Market._set_time: the clock jumps k >= 2 steps at once (orders whose life ended in between expire now)"""
+        fund = self.fund0 if fund is None else fund
+        self.ops.append(["jump", int(k), int(fund)])
+        to = self.m.get_time() + int(k)
+        try:
+            self.m._set_time(time=to, next_fundamental_price=self.U.f(fund))
+        except Exception as ex:  # noqa: BLE001
+            self._crash("tick", ex)
+        self.nohist = True
+        return self._emit({"k": "jump", "to": int(to), "fund": int(fund)})
 
     def _history(self):
         return history_rows(self.m, self._intern)
@@ -262,7 +302,7 @@ class BookSession:
             fills = []
             for g in logs:
                 k = self.U.u(g.price, soft=True)
-                fills.append([int(g.buy_order_id), int(g.sell_order_id), -1 if k is None else k, int(g.volume)])
+                fills.append([int(g.buy_order_id), int(g.sell_order_id), BADPX if k is None else k, int(g.volume)])
             e["fills"] = fills
         except Exception as ex:  # noqa: BLE001
             e["raised"] = type(ex).__name__
@@ -323,6 +363,8 @@ def _replay_into(s, hdr):
                 s.cancel(op[1])
         elif k == "tick":
             s.tick(op[1])
+        elif k == "jump":
+            s.jump(op[1], op[2])
         elif k == "match":
             s.match()
         elif k == "run":
